@@ -66,7 +66,10 @@ func genInlineEnum(r *vh.Rand, field string, k int) (EnumEnv, bool) {
 			e.UnspecDesc = "nothing"
 		}
 		if r.Chance(10) {
-			e.Unspecified = "X_UNSPECIFIED" // outside the fragment (the reader derives the prefix from it)
+			// since /repo a65e1f2 an ordinary first option
+			e.Options = append([]string{"X_UNSPECIFIED"}, e.Options...)
+			e.OptDescs = append([]string{e.UnspecDesc}, e.OptDescs...)
+			e.Unspecified, e.UnspecDesc = "", ""
 		}
 	}
 	if r.Chance(40) {
